@@ -776,9 +776,9 @@ theorem subDict_dset (h : SubDict n d) (k : String) (v : Json) (hk : Json.lookup
   · subst hkk; right; rw [lookup_dset_self, hk]
   · rw [lookup_dset_ne _ _ _ _ hkk]; exact h k'
 
-theorem negLoop_subDict (ctx : Ctx) (d : Dict) (cand : String) (en : List String) :
+theorem negLoop_subDict (var : Variant) (ctx : Ctx) (d : Dict) (cand : String) (en : List String) :
     ∀ (rest acc r : Dict), (∀ p ∈ rest, Json.lookup p.1 d = some p.2) → SubDict acc d →
-      negLoop ctx d cand en rest acc = some r → SubDict r d := by
+      negLoop var ctx d cand en rest acc = some r → SubDict r d := by
   intro rest
   induction rest with
   | nil => intro acc r _ hacc h; simp [negLoop] at h; subst h; exact hacc
@@ -799,7 +799,11 @@ theorem negLoop_subDict (ctx : Ctx) (d : Dict) (cand : String) (en : List String
         · simp only [hh, if_true] at h; exact ih _ _ hrest' h1 h
         · simp only [hh, Bool.false_eq_true, if_false] at h
           cases hdv : Json.lookup dep d with
-          | none => simp [hdv] at h
+          | none =>
+            simp only [hdv] at h
+            cases var with
+            | asFound => simp at h
+            | repaired => exact ih _ _ hrest' h1 h
           | some dv => simp only [hdv] at h; exact ih _ _ hrest' (subDict_dset h1 dep dv hdv) h
     · simp only [hc, Bool.false_eq_true, if_false] at h; exact ih _ _ hrest' hacc h
 
@@ -828,9 +832,9 @@ theorem lookup_filter_none (k : String) (p : String × Json → Bool) (d : Dict)
         simp [Json.lookup, this, ih]
       · exact ih
 
-theorem negate_success (ctx : Ctx) (canNeg : Bool) (d d' : Dict) (cand : String) (en : List String)
-    (h : negateConstraints ctx canNeg d cand en = (.success, d')) :
-    ∃ neg, negLoop ctx d cand en d [] = some neg ∧
+theorem negate_success (var : Variant) (ctx : Ctx) (canNeg : Bool) (d d' : Dict) (cand : String) (en : List String)
+    (h : negateConstraints var ctx canNeg d cand en = (.success, d')) :
+    ∃ neg, negLoop var ctx d cand en d [] = some neg ∧
       d' = (d.filter fun p => !(isMutationCandidate ctx p.1 p.2)) ++ [("not", .obj neg)] := by
   unfold negateConstraints at h
   split at h
@@ -848,15 +852,15 @@ theorem negate_success (ctx : Ctx) (canNeg : Bool) (d d' : Dict) (cand : String)
           · injection h with _ h2
             exact ⟨neg, hneg, h2.symm⟩
 
-theorem negate_negates' (ctx : Ctx) (canNeg : Bool) (d d' : Dict) (cand : String) (en : List String)
+theorem negate_negates' (var : Variant) (ctx : Ctx) (canNeg : Bool) (d d' : Dict) (cand : String) (en : List String)
     (fuel : Nat) (env : Env) (v : Json)
-    (h : negateConstraints ctx canNeg d cand en = (.success, d'))
+    (h : negateConstraints var ctx canNeg d cand en = (.success, d'))
     (hoas : env.oas = .none) (href : Json.lookup "$ref" d = none) (hfun : DictFun d)
     (hap : ∀ neg, Json.lookup "not" d' = some (.obj neg) → Json.lookup "additionalProperties" neg = none)
     (hv : validF (fuel + 2) env (.obj d') v = true) :
     validF (fuel + 1) env (.obj d) v = false := by
-  obtain ⟨neg, hneg, hd'⟩ := negate_success ctx canNeg d d' cand en h
-  have hsub : SubDict neg d := negLoop_subDict ctx d cand en d [] neg hfun (subDict_nil d) hneg
+  obtain ⟨neg, hneg, hd'⟩ := negate_success var ctx canNeg d d' cand en h
+  have hsub : SubDict neg d := negLoop_subDict var ctx d cand en d [] neg hfun (subDict_nil d) hneg
   have hnot : Json.lookup "not" d' = some (.obj neg) := by
     rw [hd', lookup_append, lookup_filter_none "not" _ d (by intro v; simp [isMutationCandidate])]
     simp [Json.lookup]
@@ -1021,5 +1025,28 @@ theorem foldl_or_success (rs : List MResult) (a : MResult) :
   | cons r rs ih =>
     simp only [List.foldl, ih, List.mem_cons]
     cases a <;> cases r <;> simp [MResult.or]
+
+theorem negLoop_repaired_some (ctx : Ctx) (d : Dict) (cand : String) (en : List String) :
+    ∀ (rest acc : Dict), ∃ r, negLoop .repaired ctx d cand en rest acc = some r := by
+  intro rest
+  induction rest with
+  | nil => intro acc; exact ⟨acc, rfl⟩
+  | cons p rest ih =>
+    intro acc
+    obtain ⟨k, v⟩ := p
+    unfold negLoop
+    by_cases hc : (isMutationCandidate ctx k v && selectedKey cand en k) = true
+    · simp only [hc, if_true]
+      cases hdep : dependency k with
+      | none => exact ih _
+      | some dep =>
+        simp only
+        by_cases hh : dhas dep (dset k v acc) = true
+        · simp only [hh, if_true]; exact ih _
+        · simp only [hh, Bool.false_eq_true, if_false]
+          cases hdv : Json.lookup dep d with
+          | none => exact ih _
+          | some dv => exact ih _
+    · simp only [hc, Bool.false_eq_true, if_false]; exact ih _
 
 end SV.Proofs.C02
